@@ -142,6 +142,24 @@ func (r *Rec) NonTrivial(key string, sample func() interface{}) {
 	}
 }
 
+// KnownHit reports a violation that belongs to the open known finding id: it is
+// counted, announced once per run, and the search goes on. It returns false when
+// the finding is not listed as open (the caller then reports a normal violation).
+func (r *Rec) KnownHit(pid, id string) bool {
+	f, ok := openFinding(id)
+	if !ok || f.Property != pid {
+		return false
+	}
+	if !r.frozen {
+		r.Known[id]++
+	}
+	if !r.printed[id] {
+		r.printed[id] = true
+		fmt.Printf("KNOWN-FINDING: property=%s %s [%s]\n", pid, f.What, f.ID)
+	}
+	return true
+}
+
 type shardStats struct {
 	ID          string           `json:"id"`
 	Shard       int              `json:"shard"`
